@@ -1,12 +1,16 @@
 from collections.abc import Callable
 from copy import deepcopy
-from types import EllipsisType, GenericAlias
+from types import EllipsisType, GenericAlias, NoneType, UnionType
 from typing import (
+    Annotated,
     Any,
     ClassVar,
     Generic,
+    Literal,
     Self,
+    TypeAliasType,
     TypeVar,
+    Union,
     cast,
     dataclass_transform,
     final,
@@ -113,6 +117,49 @@ class StateMeta(type):
         return state_type
 
 
+def _type_argument_key(
+    argument: Any,
+    /,
+) -> Any:
+    # the same type can be spelled in a few ways - directly or through a type alias, with None
+    # or NoneType, with a specialized generic state nested as a class or as an alias (a result of
+    # substituting type variables) - all of them have to end up with the same specialized type
+    if argument is None:
+        return NoneType
+
+    if isinstance(argument, TypeAliasType):
+        return _type_argument_key(argument.__value__)
+
+    origin: Any = get_origin(argument)
+    if origin is None or origin is Literal or origin is Annotated:
+        return argument
+
+    arguments: tuple[Any, ...] = get_args(argument)
+    if isinstance(origin, TypeAliasType):
+        try:
+            return _type_argument_key(origin.__value__[arguments])
+
+        except TypeError:
+            return argument
+
+    if isinstance(origin, StateMeta):
+        specialized: Any = origin[arguments]
+        return specialized if isinstance(specialized, type) else argument
+
+    if origin is Union or origin is UnionType:
+        return (Union, frozenset(_type_argument_key(element) for element in arguments))
+
+    return (
+        origin,
+        tuple(
+            tuple(_type_argument_key(nested) for nested in cast(list[Any], element))
+            if isinstance(element, list)  # parameters of a Callable
+            else _type_argument_key(element)
+            for element in arguments
+        ),
+    )
+
+
 _types_cache: WeakValueDictionary[
     tuple[
         Any,
@@ -166,7 +213,11 @@ class State(metaclass=StateMeta):
             cls.__type_params__
         ), "Type arguments count has to match type parameters count"
 
-        if cached := _types_cache.get((cls, type_arguments)):
+        cache_key: tuple[Any, ...] = (
+            cls,
+            tuple(_type_argument_key(argument) for argument in type_arguments),
+        )
+        if cached := _types_cache.get(cache_key):
             return cached
 
         type_parameters: dict[Any, Any] = {
@@ -198,7 +249,7 @@ class State(metaclass=StateMeta):
             namespace={"__module__": cls.__module__},
             type_parameters=type_parameters,
         )
-        _types_cache[(cls, type_arguments)] = parametrized_type
+        _types_cache[cache_key] = parametrized_type
         return parametrized_type
 
     def __init__(
